@@ -137,6 +137,19 @@ def main(tier, seed, prop=PROP):
         for pre, suf in TEMPLATES:
             npos.append(pre + x + suf)
     jobs.append((w_list63, (exe, sorted(set(npos)), opts, "notable-code-points", True, True)))
+    # two ill-formed sequences in a row that some other encoding reads as one character: CESU-8 surrogate pairs (ED A0..AF xx ED B0..BF xx),
+    # "modified UTF-8" NUL (C0 80) next to a continuation, overlong + continuation, 5- and 6-byte forms
+    ill = []
+    for hi in (b"\xed\xa0\x80", b"\xed\xa0\xbd", b"\xed\xaf\xbf", b"\xed\xa1\x80"):
+        for lo in (b"\xed\xb0\x80", b"\xed\xb8\x80", b"\xed\xbf\xbf"):
+            ill += [hi + lo, lo + hi, hi + hi]
+    ill += [b"\xc0\x80\x80", b"\xe0\x80\x80\x80", b"\xf8\x88\x80\x80\x80", b"\xfc\x84\x80\x80\x80\x80", b"\xf0\x80\x80\x80\x80", b"\xc1\xbf\xbf",
+            b"\xef\xbf\xbd\xed\xa0\x80", b"\xf4\x90\x80\x80\x80"]
+    ipos = []
+    for x in ill:
+        for pre, suf in TEMPLATES:
+            ipos.append(pre + x + suf)
+    jobs.append((w_list63, (exe, sorted(set(ipos)), opts, "ill-formed-pairs", True, False)))
     ds = LG.dictionary_strings()
     ds += [w.replace(b"a", "\u00e9".encode()).replace(b"x", "\u4e2d".encode()) for w in ds[:: (7 if tier == "quick" else 1)]]
     ds = sorted(set(ds))
